@@ -97,3 +97,95 @@ def canon_hash(obj):
 def eprint(*a):
     print(*a, file=sys.stderr)
     sys.stderr.flush()
+
+
+# ----------------------------------------------------------------------------- clean room
+class CleanRoom:
+    """A fresh interpreter that has imported the library and one property module and has executed
+    nothing else.  Every request `replay(failure)` is served by a FORK of it, so each one sees the
+    library exactly as a new process does (`./check <ID> --replay <file>`), whatever the requests
+    before it did: a failing input that was found late in a long run (where caches or other
+    session state of a changed library may have been filled by earlier cases) is confirmed or
+    refuted as a stand-alone reproduction here, and histories are shortened here."""
+
+    def __init__(self, modname):
+        code = ("import sys; sys.path.insert(0, {!r}); import common; "
+                "common._cleanroom_serve({!r})".format(os.path.dirname(os.path.abspath(__file__)),
+                                                       modname))
+        env = dict(os.environ)
+        env.setdefault("MPLBACKEND", "Agg")
+        self.p = subprocess.Popen([sys.executable, "-c", code], stdin=subprocess.PIPE,
+                                  stdout=subprocess.PIPE, text=True, env=env)
+        self.requests = 0
+
+    def replay(self, failure):
+        """-> {"fails": bool, ...}; a crash of the clean room counts as 'does not reproduce'"""
+        self.requests += 1
+        try:
+            self.p.stdin.write(json.dumps({"failure": failure}, default=str) + "\n")
+            self.p.stdin.flush()
+            line = self.p.stdout.readline()
+            return json.loads(line) if line.strip() else {"fails": False, "error": "no answer"}
+        except (OSError, ValueError) as e:
+            return {"fails": False, "error": repr(e)}
+
+    def close(self):
+        try:
+            self.p.stdin.close()
+            self.p.wait(timeout=10)
+        except Exception:  # noqa: BLE001
+            self.p.kill()
+
+    def __enter__(self):
+        return self
+
+    def __exit__(self, *a):
+        self.close()
+
+
+def _cleanroom_serve(modname, limit=120.0):
+    import importlib
+    import select
+    import signal
+    sys.path.insert(0, REPO)
+    mod = importlib.import_module(modname)
+    import qexpy  # noqa: F401  imported, nothing executed
+    out = sys.stdout
+    for line in sys.stdin:
+        if not line.strip():
+            continue
+        rp = json.loads(line)
+        r, w = os.pipe()
+        pid = os.fork()
+        if pid == 0:
+            os.close(r)
+            try:
+                res = mod.replay(None, rp)
+                ans = {"fails": bool(res.get("fails")), "failures": (res.get("failures") or [])[:1]}
+            except BaseException as e:  # noqa: BLE001
+                ans = {"fails": False, "error": repr(e)}
+            with os.fdopen(w, "w") as f:
+                f.write(json.dumps(ans, default=str))
+            os._exit(0)
+        os.close(w)
+        data = b""
+        t0 = time.time()
+        while True:
+            left = limit - (time.time() - t0)
+            if left <= 0 or not select.select([r], [], [], left)[0]:
+                os.kill(pid, signal.SIGKILL)
+                data = json.dumps({"fails": False, "error": "timeout"}).encode()
+                break
+            chunk = os.read(r, 65536)
+            if not chunk:
+                break
+            data += chunk
+        os.close(r)
+        os.waitpid(pid, 0)
+        try:
+            ans = json.loads(data.decode() or "{}")
+        except ValueError:
+            ans = {"fails": False, "error": "garbled answer"}
+        ans.setdefault("fails", False)
+        out.write(json.dumps(ans) + "\n")
+        out.flush()
